@@ -32,6 +32,7 @@ type HarnessOpt struct {
 	Workers   int // modelled GOMAXPROCS
 	ThoroughOnly bool
 	UnwindIsViolation bool
+	Merge []string
 }
 
 type Property struct {
@@ -166,6 +167,7 @@ func (r *Runner) optFor(name string) HarnessOpt {
 			o.Workers = c.Workers
 			o.ThoroughOnly = c.ThoroughOnly
 			o.UnwindIsViolation = c.UnwindIsViolation
+			o.Merge = c.Merge
 		}
 	}
 	return o
@@ -234,6 +236,12 @@ func (r *Runner) runHarness(rel string, fn *ssa.Function, workers int) *HarnessR
 		}
 		x := &ssaexec.Exec{Prog: r.L.Prog, C: c, S: s}
 		x.Opt = ssaexec.Options{MaxUnwind: o.MaxUnwind, MaxSteps: o.MaxSteps, InitPkgs: initPkgs, MapOrders: o.MapOrders, Workers: o.Workers, Tier: tier}
+		if len(o.Merge) > 0 {
+			x.Opt.Merge = map[string]bool{}
+			for _, m := range o.Merge {
+				x.Opt.Merge[m] = true
+			}
+		}
 		if o.Alloc {
 			x.Opt.AllocLimit = func(n int) int64 { return 64*int64(n) + 16<<20 }
 		}
